@@ -1,24 +1,25 @@
 #!/bin/bash
-# usage: confirm_seed.sh <id> <worktree> <seeddir> <demo-pkg> <demo-test-regex>
-# Confirms a seeded change: full suite passes with it (except the baseline always-fail ETH suite), the demo fails with it and passes without it.
+# usage: confirm_seed.sh <id> <worktree> <seeddir>
+# Confirms a seeded change in a scratch worktree: build ok, full suite passes with it (except the baseline
+# always-fail ETH suite), the demonstration fails with it and passes without it.
 set -u
 export GOFLAGS=-mod=mod GOPROXY=off GOSUMDB=off
-ID=$1; WT=$2; SD=$3; PKG=$4; RE=$5
+ID=$1; WT=$2; SD=$3
 cd $WT || exit 2
 git checkout -q -- . ; git clean -fdq
-DEMO=$(ls $SD/*_test.go | head -1)
-DEST=$(grep -m1 -oE "x/[a-zA-Z0-9_/.-]+_test\.go|app/[a-zA-Z0-9_/.-]+_test\.go" $DEMO | head -1)
-[ -z "$DEST" ] && DEST="$PKG/$(basename $DEMO)"
-DEST=${DEST#./}
-echo "[$ID] demo -> $DEST"
-# without change
+DEMO=$SD/seeded_demo_test.go
+DEST=$(grep -m1 -oE "(x|app|adapter)/[a-zA-Z0-9_/.-]+_test\.go" $DEMO | head -1)
+PKG=./$(dirname $DEST)/
+RUN="-run Seeded|Suite -testify.m Seeded"
 cp $DEMO $WT/$DEST
-go test -vet=off -count=1 $PKG -run "$RE" > /var/tmp/confirm-$ID-without.log 2>&1; W=$?
+go test -vet=off -count=1 $PKG $RUN > /var/tmp/confirm-$ID-without.log 2>&1; W=$?
 git apply $SD/patch.diff || { echo "[$ID] patch does not apply"; exit 2; }
-go test -vet=off -count=1 $PKG -run "$RE" > /var/tmp/confirm-$ID-with.log 2>&1; X=$?
+go test -vet=off -count=1 $PKG $RUN > /var/tmp/confirm-$ID-with.log 2>&1; X=$?
+NRUN=$(grep -c "^--- \|^    --- \|^ok\|^FAIL" /var/tmp/confirm-$ID-with.log)
 rm $WT/$DEST
 go build ./... > /var/tmp/confirm-$ID-build.log 2>&1; B=$?
 go test -vet=off -count=1 ./... > /var/tmp/confirm-$ID-suite.log 2>&1
-F=$(grep -E "^(FAIL|---  FAIL|--- FAIL)" /var/tmp/confirm-$ID-suite.log | grep -v "eth/types\|TestETHTestSuite\|^FAIL$" | head -5)
-echo "[$ID] demo without change exit=$W (want 0); with change exit=$X (want 1); build=$B; unexpected suite failures: '${F}'"
+F=$(grep -E "^(FAIL|--- FAIL)" /var/tmp/confirm-$ID-suite.log | grep -v "eth/types\|TestETHTestSuite\|^FAIL$" | head -5)
+echo "[$ID] pkg=$PKG demo without change exit=$W (want 0); with change exit=$X (want 1); build=$B; unexpected suite failures: '${F}'"
+grep -h "^--- FAIL\|^    --- FAIL" /var/tmp/confirm-$ID-with.log | head -3
 git checkout -q -- . ; git clean -fdq
